@@ -33,6 +33,8 @@ SHAPES = {
     # names that are not NFC-stable next to siblings that sort between their raw and composed forms
     "DNFC": [["e\u0301.bin"], ["f.bin"], ["sub", "\u212a-scale.dat"], ["sub", "notes.txt"]],
     "DS": [["@"]],                     # a directory whose only file carries the directory's own name
+    "DL": [["a.bin"], ["sub", "b.bin"], ["mirror", "a.bin"], ["zz-link"]],    # hard links inside the payload
+    "DD": [["CD1", "cover.jpg"], ["CD2", "cover.jpg"], ["x.bin"]],          # same name, (made) identical bytes
 }
 
 
@@ -51,6 +53,10 @@ def mk_tree(shape, sizes, name=None, modes=None):
             f["mode"] = m
     if shape in ("D4", "D5"):
         t["dirs"] = [["emptydir"], ["d", "alsoempty"]]       # directories without files
+    if shape == "DL":            # the last two names are hard links of the first two files
+        for k in (2, 3):
+            t["files"][k]["link_of"] = k - 2
+            t["files"][k]["size"] = t["files"][k - 2]["size"]
     return t
 
 
@@ -80,7 +86,7 @@ def gen_trees(tier, rng, plens, quick_n, thorough_n, need_nonempty=True):
                       (8 * M, (M + 7, 9 * M + 3, 100 * 1024))):      # a piece reaching > 4 MiB into the next file
         out.append(({1: "S1", 2: "D2", 3: "D3"}[len(szs)], szs, Pbig))
     n = thorough_n if tier == "thorough" else quick_n
-    shapes = ["D3", "D4", "D2n", "D2", "DN", "DNf", "DC", "DU", "D5", "DNFC", "DS"]
+    shapes = ["D3", "D4", "D2n", "D2", "DN", "DNf", "DC", "DU", "D5", "DNFC", "DS", "DL"]
     for _ in range(n):
         P = rng.choice(plens)
         A = alphabet(P)
@@ -443,9 +449,10 @@ class C08(CreateProp):
             base = {"creator": cr, "version": v, "P": P, "tree": tree, "group": grp, "opts": dict(infoopts),
                     "outer": "plain", "clauses": ["C08.info", "C08.rest", "C08.name"]}
             members = [dict(base)]                                   # canonical: absolute path
-            dir_sp = ["rel", "dotslash", "updown", "absdot", "dbl"] + ([] if sh == "S1" else ["trail", "trail2", "slashdot", "dot"])
+            dir_sp = ["rel", "dotslash", "updown", "absdot", "dbl", "symparent", "symparentrel"] + (
+                [] if sh == "S1" else ["trail", "trail2", "slashdot", "dot"])
             if sh == "S1":
-                dir_sp = ["rel", "dotslash", "updown", "dbl"]
+                dir_sp = ["rel", "dotslash", "updown", "dbl", "symparent"]
             for sp in dir_sp:
                 members.append(dict(base, spelling=sp))
             members.append(dict(base, cwd_mode="elsewhere"))
